@@ -1,8 +1,13 @@
 package props
 
 import (
+	"encoding/hex"
+	"encoding/json"
 	"fmt"
+	"github.com/decred/dcrd/dcrec/secp256k1/v4"
+	"github.com/elnosh/gonuts/cashu/nuts/nut20"
 	"time"
+	"verif/harness/world"
 
 	"verif/harness/bfs"
 	"verif/harness/mintops"
@@ -66,6 +71,64 @@ func c03Probe(w *mintops.W) {
 			continue
 		}
 		w.Exec(fmt.Sprintf("mint|%d|exact", qi))
+	}
+	c03HTTPProbe(w)
+}
+
+// c03HTTPProbe: the same rule through the HTTP handler (which keeps a NUT-19 response cache): a fresh quote, plain and
+// NUT-20 locked, is paid and issued over HTTP; every further, different request for it — other outputs, and for the
+// locked quote other outputs with a signature by another key or none — must be refused, not answered 200.
+func c03HTTPProbe(w *mintops.W) {
+	x := &c20{w: w}
+	x.act = w.M.ActiveID()
+	key := secp256k1.PrivKeyFromBytes([]byte("c03 http probe nut20 key 32bytes"))
+	other := secp256k1.PrivKeyFromBytes([]byte("c03 http probe OTHER key 32bytes"))
+	for _, locked := range []bool{false, true} {
+		pub := ""
+		if locked {
+			pub = fmt.Sprintf(`,"pubkey":%q`, hex.EncodeToString(key.PubKey().SerializeCompressed()))
+		}
+		qid, qh := x.mintQuote(8, pub)
+		if qid == "" {
+			continue
+		}
+		w.LN.Settle(qh)
+		body := func(outs []world.Out, signer *secp256k1.PrivateKey) string {
+			m := map[string]any{"quote": qid, "outputs": json.RawMessage(outsJSON(outs))}
+			if signer != nil {
+				sg, _ := nut20.SignMintQuote(signer, qid, world.Msgs(outs))
+				m["signature"] = hex.EncodeToString(sg.Serialize())
+			}
+			return jsonStr(m)
+		}
+		var signer *secp256k1.PrivateKey
+		if locked {
+			signer = key
+		}
+		first := x.call("POST", "/v1/mint/bolt11", body(w.U.Outputs(x.act, 8), signer))
+		if first.code != 200 {
+			continue
+		}
+		kind := map[bool]string{false: "plain", true: "nut20"}[locked]
+		again := []struct {
+			name   string
+			signer *secp256k1.PrivateKey
+		}{{"other-outputs", signer}}
+		if locked {
+			again = append(again, struct {
+				name   string
+				signer *secp256k1.PrivateKey
+			}{"other-outputs-signed-by-another-key", other}, struct {
+				name   string
+				signer *secp256k1.PrivateKey
+			}{"other-outputs-unsigned", nil})
+		}
+		for _, a := range again {
+			r := x.call("POST", "/v1/mint/bolt11", body(w.U.Outputs(x.act, 8), a.signer))
+			if r.code == 200 {
+				w.Viol("C03,C20", "http/issued-quote-answered-200/"+kind+"/"+a.name, "POST /v1/mint/bolt11 for the already issued %s quote with %s was answered 200: %.160q", kind, a.name, r.raw)
+			}
+		}
 	}
 }
 
